@@ -241,5 +241,5 @@ def parts(tier):
     t = tier == 'thorough'
     return [
         Part('codec', eval_codec, cases=codec_cases, exhaustive=True),
-        Part('roundtrip', eval_roundtrip, strategy=strategy, examples=200000 if t else 6000),
+        Part('roundtrip', eval_roundtrip, strategy=strategy, examples=400000 if t else 6000),
     ]
